@@ -69,7 +69,10 @@ Print Assumptions C14_finishes_under_any_schedule.
 
 (* ... in wall-clock terms: the polling loop of try_lock_*_with_timeout (State/LockWait.v: elapsed,
    interval; constant interval as in the code) gives up no earlier than the time-out and strictly
-   before time-out + one poll interval, for every time-out and every interval of at least 1 ms *)
+   before time-out + one poll interval, for every time-out and every interval of at least 1 ms.
+   The bound is PER LOCK ACQUISITION: a command performs up to three acquisitions in a row (update
+   lock, shared read lock, exclusive write lock; phases PUpd, PLoad LO, PSave WOp), so one process
+   can wait up to three time-outs in total -- that total is what C14_wait_bounded bounds. *)
 Theorem C14_lock_wait_within_timeout : forall (timeout interval : N), 1 <= interval ->
   timeout <= total_wait timeout interval (fun x => x) /\
   total_wait timeout interval (fun x => x) < timeout + interval.
